@@ -6,6 +6,7 @@ import "strings"
 func Gob(g *G, n int) []Program {
 	var out []Program
 	for i := 0; i < n; i++ {
+		xp := 0 // the transmitted precision when the generator knows it
 		// the value to transmit, with all attributes varied
 		switch g.R.Intn(8) {
 		case 0:
@@ -24,13 +25,16 @@ func Gob(g *G, n int) []Program {
 				}
 			}
 			e := g.Exp()
-			g.Load("r0", g.Bool(), d, e, len(d)+g.Pick(0, 1, 19, 40), g.Mode())
+			xp = len(d) + g.Pick(0, 1, 19, 40)
+			g.Load("r0", g.Bool(), d, e, xp, g.Mode())
 			if g.R.Intn(3) == 0 { // leave an inexact accuracy behind
-				g.Emit(M{"op": "SetPrec", "z": "r0", "p": 1 + g.R.Intn(len(d))})
+				xp = 1 + g.R.Intn(len(d))
+				g.Emit(M{"op": "SetPrec", "z": "r0", "p": xp})
 			}
 		}
 		if g.R.Intn(12) == 0 { // the largest precision there is: the word count derived from it must not wrap
 			g.Emit(M{"op": "SetPrecMax", "z": "r0"})
+			xp = 0
 		}
 		// the receiver: zero value, precision 0 with other attributes, or its own precision and mode
 		switch g.R.Intn(4) {
@@ -39,7 +43,11 @@ func Gob(g *G, n int) []Program {
 		case 1:
 			g.Receiver("r2", 0, g.Mode())
 		default:
-			g.Receiver("r2", g.Prec(), g.Mode())
+			rp := g.Prec()
+			if xp > 0 && g.R.Intn(3) == 0 {
+				rp = xp // the receiver's precision happens to be the transmitted one: its mode and accuracy rules still apply
+			}
+			g.Receiver("r2", rp, g.Mode())
 		}
 		switch k := g.R.Intn(100); {
 		case k < 25:
